@@ -16,6 +16,7 @@ EXPLANATION = (
     "sleep_until/timeout_at/interval_at the given instant, interval starts at now and keeps the given period, Sleep::reset stores the new "
     "deadline on every path and Interval::reset re-arms at now + period. "
     '(R5 also: TimerSlot::add stores every entry unconditionally - one entry per registered sleep.) '
+    '(R9) no deadline or clock read-out in a unit coarser than its resolution anywhere in the timer modules. '
     "Decides these necessary conditions only; not firing instants over programs.")
 ASSUMPTIONS = ["VecDeque::binary_search_by/insert keep the pending list sorted by time", "wakers wake their tasks (tokio)"]
 
